@@ -27,6 +27,7 @@ using VecU8 = std::vector<std::uint8_t>;
 using VecU32 = std::vector<std::uint32_t>;
 using VecPair = std::vector<std::pair<std::uint8_t, bool>>;
 using Str = std::string;
+using WStr = std::wstring;  // wide characters: byte length == 4 * characters
 using MapT = std::map<std::uint8_t, std::int16_t>;
 using UMapT = std::unordered_map<std::uint8_t, std::int16_t>;
 }  // namespace vt
@@ -48,5 +49,6 @@ VT_STD(vt::VecU8, vecu8, 7)
 VT_STD(vt::VecU32, vecu32, 16)
 VT_STD(vt::VecPair, vecpair, 12)
 VT_STD(vt::Str, str, 10)
+VT_STD(vt::WStr, wstr, 14)
 VT_STD(vt::MapT, map, 12)
 VT_STD(vt::UMapT, umap, 12)
